@@ -1195,6 +1195,100 @@ def iterate_self(tree):
     return count[0]
 
 
+def records_to_dicts(tree, known_globals=None):
+    """N39  A named-tuple type introduced at module level (`T = namedtuple('T', 'a b c')`, not a global of the reference module) that is built and read
+    inside one function is the dictionary record it replaced: `T(x, y, z)` / `T(a=x, ..)` -> `{'a': x, 'b': y, 'c': z}`; in the functions that build
+    such records `r.a` -> `r['a']` for plain names r, and `p, q, s = r` / `for p, q, s in records` (as many targets as fields, r a loop variable over /
+    an element of the list the records were appended to) -> one item read per field."""
+    types = {}
+    for st in getattr(tree, 'body', []):
+        if isinstance(st, ast.Assign) and len(st.targets) == 1 and isinstance(st.targets[0], ast.Name) and isinstance(st.value, ast.Call) \
+                and ast.unparse(st.value.func) in ('collections.namedtuple', 'namedtuple') and len(st.value.args) >= 2:
+            if known_globals is not None and st.targets[0].id in known_globals:
+                continue
+            fa = st.value.args[1]
+            fields = None
+            if isinstance(fa, ast.Constant) and isinstance(fa.value, str):
+                fields = fa.value.replace(',', ' ').split()
+            elif isinstance(fa, (ast.List, ast.Tuple)) and all(isinstance(e, ast.Constant) and isinstance(e.value, str) for e in fa.elts):
+                fields = [e.value for e in fa.elts]
+            if fields:
+                types[st.targets[0].id] = fields
+    if not types:
+        return 0
+    count = [0]
+    for fn in [n for n in ast.walk(tree) if isinstance(n, (ast.FunctionDef, ast.AsyncFunctionDef))]:
+        ctors = [c for c in ast.walk(fn) if isinstance(c, ast.Call) and isinstance(c.func, ast.Name) and c.func.id in types]
+        if not ctors:
+            continue
+        fields_here = set()
+        # names of the lists the records go into, and of the names bound to a record
+        record_lists, record_names = set(), set()
+        for c in ctors:
+            fields_here |= set(types[c.func.id])
+        for n in ast.walk(fn):
+            if isinstance(n, ast.Call) and isinstance(n.func, ast.Attribute) and n.func.attr == 'append' and isinstance(n.func.value, ast.Name) and n.args and any(n.args[0] is c for c in ctors):
+                record_lists.add(n.func.value.id)
+            if isinstance(n, ast.Assign) and len(n.targets) == 1 and isinstance(n.targets[0], ast.Name) and any(n.value is c for c in ctors):
+                record_names.add(n.targets[0].id)
+        for n in ast.walk(fn):
+            if isinstance(n, ast.For) and isinstance(n.iter, ast.Name) and n.iter.id in record_lists and isinstance(n.target, ast.Name):
+                record_names.add(n.target.id)
+        nf = {len(v) for v in types.values()}
+
+        class T(ast.NodeTransformer):
+            def visit_Call(self, node):
+                self.generic_visit(node)
+                if isinstance(node.func, ast.Name) and node.func.id in types and not any(isinstance(a, ast.Starred) for a in node.args) and not any(k.arg is None for k in node.keywords):
+                    fs = types[node.func.id]
+                    vals = dict(zip(fs, node.args))
+                    for k in node.keywords:
+                        vals[k.arg] = k.value
+                    if set(vals) == set(fs):
+                        count[0] += 1
+                        return ast.copy_location(ast.Dict(keys=[ast.Constant(value=f_) for f_ in fs], values=[vals[f_] for f_ in fs]), node)
+                return node
+
+            def visit_Attribute(self, node):
+                self.generic_visit(node)
+                if isinstance(node.ctx, ast.Load) and isinstance(node.value, ast.Name) and node.value.id in record_names and node.attr in fields_here:
+                    count[0] += 1
+                    return ast.copy_location(ast.Subscript(value=node.value, slice=ast.Constant(value=node.attr), ctx=ast.Load()), node)
+                return node
+        T().visit(fn)
+
+        def expand(stmts):
+            out = []
+            for st in stmts:
+                for fld in ('body', 'orelse', 'finalbody'):
+                    sub = getattr(st, fld, None)
+                    if isinstance(sub, list) and sub and isinstance(sub[0], ast.stmt) and not isinstance(st, (ast.FunctionDef, ast.AsyncFunctionDef, ast.ClassDef)):
+                        setattr(st, fld, expand(sub))
+                if isinstance(st, ast.Try):
+                    for h in st.handlers:
+                        h.body = expand(h.body)
+                fs = next(iter(types.values())) if len(types) == 1 else None
+                if fs and isinstance(st, ast.Assign) and len(st.targets) == 1 and isinstance(st.targets[0], ast.Tuple) and len(st.targets[0].elts) == len(fs) \
+                        and all(isinstance(e, ast.Name) for e in st.targets[0].elts) and isinstance(st.value, ast.Name) and st.value.id in record_names:
+                    for e, f_ in zip(st.targets[0].elts, fs):
+                        out.append(ast.fix_missing_locations(ast.copy_location(ast.Assign(targets=[e], value=ast.Subscript(value=ast.Name(id=st.value.id, ctx=ast.Load()),
+                                                                                                                         slice=ast.Constant(value=f_), ctx=ast.Load())), st)))
+                    count[0] += 1
+                    continue
+                if fs and isinstance(st, ast.For) and isinstance(st.iter, ast.Name) and st.iter.id in record_lists and isinstance(st.target, ast.Tuple) and len(st.target.elts) == len(fs) \
+                        and all(isinstance(e, ast.Name) for e in st.target.elts):
+                    rn = f'record__r{count[0]}'
+                    pre = [ast.Assign(targets=[e], value=ast.Subscript(value=ast.Name(id=rn, ctx=ast.Load()), slice=ast.Constant(value=f_), ctx=ast.Load())) for e, f_ in zip(st.target.elts, fs)]
+                    st.target = ast.Name(id=rn, ctx=ast.Store())
+                    st.body = pre + st.body
+                    ast.fix_missing_locations(st)
+                    count[0] += 1
+                out.append(st)
+            return out
+        fn.body = expand(fn.body)
+    return count[0]
+
+
 def merge_twin_branches(tree):
     """N30: `if c: T(A) else: T(B)` where both arms are the same single statement up to one sub-expression (the same call / assignment with
     one differing argument or value) -> `T(A if c else B)`."""
